@@ -225,6 +225,8 @@ class Subroutine(Scope):
         interface_array = self.get_interface_array(
             keyword_list, sub_sig, drop_arg, change_strings
         )
+        if interface_array is None:
+            return None
         name = name_replace if name_replace is not None else self.name
         interface_array.append(f"END SUBROUTINE {name}")
         return "\n".join(interface_array)
